@@ -38,7 +38,30 @@ def sym_int(x=0, *a):
         return x
     if _isinstance(x, SymBool):
         return SymInt(core.lift(x))
+    d = getattr(x, "data", None)
+    if _isinstance(d, SymStr) and not a:  # collections.UserString holding a symbolic string
+        return sym_int(d)
     return _int(x, *a)
+
+
+def int_to_str(x, max_digits=7):
+    """decimal rendering of a SymInt: forks on sign and number of digits (bounded)"""
+    eng = engine()
+    e = x.e
+    if z3.is_bv(e):
+        e = z3.BV2Int(e)
+    neg = eng.decide(e < 0)
+    if neg:
+        e = -e
+    n = 1
+    while n <= max_digits and not eng.decide(e < 10 ** n):
+        n += 1
+    if n > max_digits:
+        raise Unsupported("str() of symbolic integer with more than %d digits" % max_digits)
+    items = ["-"] if neg else []
+    for k in range(n - 1, -1, -1):
+        items.append(z3.simplify((e / (10 ** k)) % 10 + 48))
+    return mk(tuple(c if not z3.is_int_value(c) else _chr(c.as_long()) for c in items))
 
 
 def sym_ord(x):
@@ -58,10 +81,14 @@ def sym_chr(x):
 def sym_str(x="", *a):
     if _isinstance(x, SymStr):
         return x
-    if _isinstance(x, (SymInt, SymBool)):
+    if _isinstance(x, SymInt):
         if core.ENG is not None and core.ENG.msgmode:
             return "<sym>"
-        raise Unsupported("str() of symbolic number")
+        return int_to_str(x)
+    if _isinstance(x, SymBool):
+        if core.ENG is not None and core.ENG.msgmode:
+            return "<sym>"
+        return "True" if x else "False"
     return _str(x, *a)
 
 
@@ -153,8 +180,30 @@ def hash_key(x):
     return ("h", r)
 
 
+def _has_sym(k):
+    if _isinstance(k, SymHash) or core.is_sym(k):
+        return True
+    if _isinstance(k, tuple):
+        return any(_has_sym(y) for y in k)
+    return False
+
+
+ALWAYS_SYMHASH = [False]
+
+
 def sym_hash(x):
-    return SymHash(hash_key(x))
+    """hash() under the injectivity assumption when the argument carries symbolic data; the real hash otherwise"""
+    if ALWAYS_SYMHASH[0]:
+        return SymHash(hash_key(x))
+    if not _isinstance(x, SymHash) and not core.is_sym(x) and not _isinstance(x, tuple):
+        try:
+            return _hash(x)
+        except Unsupported:
+            pass
+    k = hash_key(x)
+    if not _has_sym(k):
+        return _hash(x)
+    return SymHash(k)
 
 
 _TYPEMAP.update({sym_int: _int, sym_str: _str, sym_bool: _bool})
@@ -168,6 +217,7 @@ BUILTIN_SHIMS = {
     "bool": sym_bool,
     "isinstance": sym_isinstance,
     "repr": sym_repr,
+    "hash": sym_hash,
 }
 
 
